@@ -33,7 +33,43 @@ def consistent(facts, new):
     return f
 
 
-def enum_paths(fa, max_paths=20000, domain=None):
+def resolve_on_path(fa, t, blocks, memo=None):
+    """The value of term t along the given path: every phi is replaced by the operand of the predecessor the path came from."""
+    from terms import set_ty, ty_of, CHECKED
+    if memo is None:
+        memo = {}
+    pos = {}
+    for i, b in enumerate(blocks):
+        pos[b] = i
+
+    def go(x):
+        if isinstance(x, tuple):
+            return tuple(go(y) for y in x)
+        if not isinstance(x, T):
+            return x
+        r = memo.get(x)
+        if r is not None:
+            return r
+        if x.op == "phi" and x.args[0] == id(fa.fn) and x.args[2] in pos and pos[x.args[2]] > 0:
+            pred = blocks[pos[x.args[2]] - 1]
+            r = go(fa.end_val(x.args[1], pred))
+        elif x.op in ("const", "arg", "loc", "closure") or not x.args:
+            r = x
+        else:
+            na = tuple(go(a) for a in x.args)
+            if all(a is b for a, b in zip(na, x.args)):
+                r = x
+            else:
+                r = mk(x.op, *na)
+                set_ty(r, ty_of(x))
+                if x in CHECKED:
+                    CHECKED.add(r)
+        memo[x] = r
+        return r
+    return go(t)
+
+
+def enum_paths(fa, max_paths=20000, domain=None, resolve=False):
     """Yield (blocks, facts_dict, ret_term, fact_list) for every feasible path of a loop-free function.
     domain(term) -> optional set of all possible values of a switched term (lets 'ne' facts become 'eq')."""
     f = fa.fn
@@ -55,6 +91,8 @@ def enum_paths(fa, max_paths=20000, domain=None):
             if n > max_paths:
                 raise TooMany(f.path)
             rv = fa.defterm(0, *last0) if last0 is not None else mk("undef", id(f), 0)
+            if resolve:
+                rv = resolve_on_path(fa, rv, blocks)
             out.append((blocks, facts, rv, flist))
             continue
         succs = f.succ(b)
